@@ -7,7 +7,7 @@ CHECKS = {
  "C01": dict(
    technique="model-based property testing (rapid histories + exhaustive small scope) against a relation model and a pure fold oracle",
    level="exploration",
-   text="Generated operation histories (random, model-aimed, plus every history of length<=3 [quick] / <=4 [thorough] over a 24-step alphabet) are run against rib.RIB and against server.Modify/Get over in-process streams; after every step the installed entries must equal (a) the pure fold of the acknowledged operations in acknowledgement order and (b) the relation model, and held-set / counters must match. Search, not proof: it shows the property on the explored histories and finds counterexamples, shrunk to a replay file.",
+   text="Generated operation histories (random, model-aimed, plus every history of length<=3 [quick] / <=4 [thorough] over a 24-step alphabet) are run against rib.RIB and against server.Modify/Get over in-process streams; after every step the installed entries must equal (a) the pure fold of the acknowledged operations in acknowledgement order and (b) the relation model, and held-set / counters must match. Search, not proof: it shows the property on the explored histories and finds counterexamples, shrunk to a replay file. In addition: dependency graphs in disturbed arrival orders (held chains, dependencies deleted while waited for, doomed held REPLACEs failing inside a cascade) and one server-level history in four runs with the server behind a real grpc.Server over bufconn (real codec and HTTP/2 streams), under the same oracles.",
    note="Trusted: the reference model in harness/internal/model, the generator's notion of schema-valid payloads, rib.Concrete*Proto for reading L1 state (cross-checked by C07). Exhaustive only for the stated small scopes.",
    design="DESIGN.md §4 C01"),
  "C02": dict(
@@ -25,13 +25,13 @@ CHECKS = {
  "C16": dict(
    technique="model-based property testing: a folding consumer of the hook notifications compared with RIBContents after every step, over generated histories x configuration orders",
    level="exploration",
-   text="C01-style histories (held-op resolution, single-NI and all-NI flushes) are run under four configuration orders of hook registration vs network-instance creation (rib API and server options, runtime AddNetworkInstance). A consumer folds post-change notifications and must equal RIBContents in every NI after every step; resolved-entry notifications are counted exactly (awaited by goroutine state, not time), must contain/lack the announced key and must be unchanged at the end of the history.",
+   text="C01-style histories (held-op resolution, single-NI and all-NI flushes) are run under four configuration orders of hook registration vs network-instance creation (rib API and server options, runtime AddNetworkInstance). A consumer folds post-change notifications and must equal RIBContents in every NI after every step; resolved-entry notifications are counted exactly (awaited by goroutine state, not time), must contain/lack the announced key and must be unchanged at the end of the history. In addition the mid-flush injection schedule of C08 is run with this property's oracle: when the Flush and the second actor's operation (mostly re-programming a key that is being flushed) have both finished, the fold of all notifications must equal the RIB contents.",
    note="Trusted: obs conversion via rib.Concrete*Proto for both sides of the comparison; goroutine-dump based quiescence for the asynchronous resolved-entry hook.",
    design="DESIGN.md §4 C16"),
  "C08": dict(
    technique="property-based testing with full decision-table enumeration at a generated flush point, against an explicit status table and the RIB relation model",
    level="exploration",
-   text="For generated RIB contents (backup groups shared/missing/circular, cross-instance references) the complete decision table of Flush {target} x {election field} is enumerated against server election state (a learnt 128-bit id from a lattice, or none learnt with injected contents): every non-authorised or malformed cell must return the code and FlushResponseError reason gribi.proto assigns and change nothing (Get + hooks after each cell); one drawn authorised cell must answer OK, empty exactly its targets and leave counters consistent, and a generated epilogue of operations must behave as the model predicts.",
+   text="For generated RIB contents (backup groups shared/missing/circular, cross-instance references) the complete decision table of Flush {target} x {election field} is enumerated against server election state (a learnt 128-bit id from a lattice, or none learnt with injected contents): every non-authorised or malformed cell must return the code and FlushResponseError reason gribi.proto assigns and change nothing (Get + hooks after each cell); one drawn authorised cell must answer OK, empty exactly its targets and leave counters consistent, and a generated epilogue of operations must behave as the model predicts. In addition (rib API), Flushes of 1-3 instances in a drawn order are stopped at a drawn removal notification through the public post-change hook; one further operation is started there on another goroutine and the Flush resumes only when that operation returned or is parked on a lock (goroutine state): the final contents must equal 'operation, then flush' or 'flush, then operation' under the belief model, Flush must succeed and counters must equal referrers.",
    note="Trusted: the status table transcribed from gribi.proto comments (zero id: reason fixed, code INVALID_ARGUMENT or FAILED_PRECONDITION accepted); reference model; hooks. Authorised cells are sampled per RIB, rejected cells are all enumerated.",
    design="DESIGN.md §4 C08"),
  "C07": dict(
@@ -49,7 +49,7 @@ CHECKS = {
  "C04": dict(
    technique="model-based property testing of multi-session scripts (harness-owned interleaving at message granularity) against the election/session model, with before/after state snapshots through Get and hooks",
    level="exploration",
-   text="Scripts of connect / negotiate / announce / operate / disconnect steps for 2-3 sessions (random up to 25 steps, exhaustive up to 4/5 steps over a 2-session alphabet) with announced ids and operation stamps drawn independently from a 128-bit lattice are run over in-process streams. An operation must be accepted iff its session is the model's primary and its stamp equals the session's last announced id and the highest id learnt; every other operation must be answered FAILED or end its RPC and leave Get contents, held operations, counters, election id and primary untouched.",
+   text="Scripts of connect / negotiate / announce / operate / disconnect steps for 2-3 sessions (random up to 25 steps, exhaustive up to 4/5 steps over a 2-session alphabet) with announced ids and operation stamps drawn independently from a 128-bit lattice are run over in-process streams. An operation must be accepted iff its session is the model's primary and its stamp equals the session's last announced id and the highest id learnt; every other operation must be answered FAILED or end its RPC and leave Get contents, held operations, counters, election id and primary untouched. In addition, in-flight schedules: the primary's request is stopped inside one of its operations through the public post-change hook, announcements of up to three other sessions are delivered meanwhile (each followed until it is answered or its handler is parked on a lock - goroutine state), the operation is released; at quiescence election id and primary must be those the announcements produce in their order (any announcer of the maximum if some had to wait) and exactly the primary's correctly stamped probe operation must be programmed.",
    note="Trusted: the election model (primary = most recent announcer of an id >= all earlier ones, 128-bit compare); in-process streams; hooks for election state. Operations never become held here (C06 covers hand-over with held operations).",
    design="DESIGN.md §4 C04"),
  "C05": dict(
@@ -73,13 +73,13 @@ CHECKS = {
  "C12": dict(
    technique="property-based testing with constructed invalid classes and structural protobuf mutation of valid operations, before/after state comparison and a twin-RIB panic screen; the thorough tier adds coverage-guided native fuzzing (go test -fuzz) of proto.Unmarshal-decoded operations with the same oracle inside the target",
    level="exploration",
-   text="A server pre-loaded with a generated RIB and a second idle session receives one message: every constructed invalid class, 1-3 structural mutations (undefined enum numbers, cleared sub-messages, duplicated list keys, invalid UTF-8, boundary integers, junk strings) of valid full-field operations, or a malformed Get/Flush. The operation is first applied to a twin RIB under recover (a panic there is a violation with the case), then sent through the server: exactly one in-band result or a clean RPC error on that session only; the idle session sees nothing and afterwards wins an election and programs an entry; rejected operations leave contents, held set and counters identical, accepted mutants change only their own key and keep counters and Get consistent.",
+   text="A server pre-loaded with a generated RIB and a second idle session receives one message: every constructed invalid class, 1-3 structural mutations (undefined enum numbers, cleared sub-messages, duplicated list keys, invalid UTF-8, boundary integers, junk strings) of valid full-field operations, or a malformed Get/Flush. The operation is first applied to a twin RIB under recover (a panic there is a violation with the case), then sent through the server: exactly one in-band result or a clean RPC error on that session only; the idle session sees nothing and afterwards wins an election and programs an entry; rejected operations leave contents, held set and counters identical, accepted mutants change only their own key and keep counters and Get consistent. A mutant that is malformed by the model's static validity rules (zero/missing key or group, empty group, zero member index, label out of range, unknown group network instance, nil entry) must be rejected whatever else it carries - never programmed, never held; the constructed classes include the same defects on otherwise fully populated operations.",
    note="Trusted: classification of the constructed classes as invalid (from the property text); the in-process stream (delivers messages gRPC's codec would refuse). A crash of the test process is reported by the driver as a violation with the in-flight case.",
    design="DESIGN.md §4 C12"),
  "C10": dict(
    technique="fault enumeration over generated scripts: every cut point x termination mode (in-process streams give exact cut points), prefix-of-sent-operations oracle, probe session under a watchdog with goroutine-dump attribution",
    level="fault_enumeration",
-   text="For every generated Modify script all single faults are enumerated: the client goes away after each message sent, after each response read, at the K-th response inside a batch (send failure, or flow-control stall followed by cancel), by half-close, cancel or transport error; Gets are abandoned after each received response 0..n; plus random sequences of 2-3 faults. Once the RPC has ended and its goroutines are parked, entries read through a fresh Get must equal the model state after some prefix of the sent operations that includes every acknowledged one, the learnt election id must be the maximum delivered, the session footprint must be gone, and a probe session (negotiate, win election, ADD, Get, Flush) must complete; a watchdog expiry counts only with a gribigo frame parked on a lock/channel.",
+   text="For every generated Modify script all single faults are enumerated: the client goes away after each message sent, after each response read, at the K-th response inside a batch (send failure, or flow-control stall followed by cancel), by half-close, cancel or transport error; Gets are abandoned after each received response 0..n; plus random sequences of 2-3 faults. Once the RPC has ended and its goroutines are parked, entries read through a fresh Get must equal the model state after some prefix of the sent operations that includes every acknowledged one, the learnt election id must be the maximum delivered, the session footprint must be gone, and a probe session (negotiate, win election, ADD, Get, Flush) must complete; a watchdog expiry counts only with a gribigo frame parked on a lock/channel. The same scripts are also run with the server behind a real grpc.Server over bufconn: CloseSend, context cancellation (RST_STREAM), teardown of the client's connection, a client that never reads and then cancels, an abandoned Get stream, and a flood of cheap operations that parks the server's writer in HTTP/2 flow control before the client goes away.",
    note="Trusted: belief model (servers run with forward references disallowed so unanswered operations are deterministic); goroutine-state quiescence; emulation of transport faults at the stream interface (kernel-level failures out of reach).",
    design="DESIGN.md §4 C10"),
  "C17": dict(
@@ -91,7 +91,7 @@ CHECKS = {
  "C18": dict(
    technique="property-based testing of generated builder programs against an independent interpreter, observed through a recording stub GRIBIClient",
    level="exploration",
-   text="Programs of constructor/With*/Add* calls over the five entry builders and both encap-header builders, interleaved with AddEntry/ReplaceEntry/DeleteEntry, UpdateElectionID, StartSending and OpProto/EntryProto probes, run on a fluent client (elected-primary or all-primary) wired to a recording stub; builders keep being mutated after they were queued. An independent interpreter computes the expected protos, ids 1,2,3.., operation types and election stamps; probes are compared immediately, the request pointers received by the stub only at the very end so that aliasing of queued messages shows.",
+   text="Programs of constructor/With*/Add* calls over the five entry builders and both encap-header builders, interleaved with AddEntry/ReplaceEntry/DeleteEntry, UpdateElectionID, StartSending and OpProto/EntryProto probes, run on a fluent client (elected-primary or all-primary) wired to a recording stub; builders keep being mutated after they were queued. An independent interpreter computes the expected protos, ids 1,2,3.., operation types and election stamps; probes are compared immediately, the request pointers received by the stub only at the very end so that aliasing of queued messages shows. Queue and election calls are made on a fresh Modify() handle, on the handle the previous call returned (chaining) or on a handle kept from the start; programs may restart the client (Stop + Start + StartSending: ids keep counting, the stamp stays the latest UpdateElectionID).",
    note="Trusted: the interpreter's reading of each setter (last call wins, Add* appends); header builders are not modified after AddEncapHeader; the stub stands in for gRPC (no serialisation).",
    design="DESIGN.md §4 C18"),
  "C13": dict(
@@ -103,7 +103,7 @@ CHECKS = {
  "C14": dict(
    technique="fault enumeration: every fault index x side x status class x burst size x epilogue on a scripted stub stream, with watchdog and goroutine-dump census oracles",
    level="fault_enumeration",
-   text="A scripted exchange is cut by one stream fault at every message index on the send side (failing Send, or a Send stalled by flow control that then fails) and on the receive side, for EOF/Unavailable/Internal/Canceled, while the application queues a burst of 0..12 further requests; then Close, or Reset + new stub + Connect + a further exchange. The full product over small parameters is enumerated and larger ones are drawn. Done must fire, every Q must return, the error must be recorded, AwaitConverged must return a *ClientErr (never nil), Close/Reset must return, no goroutine with client frames may remain, and after Reset+Connect the client must be empty, the new stream must carry exactly a fresh client's messages and a further exchange must converge.",
+   text="A scripted exchange is cut by one stream fault at every message index on the send side (failing Send, or a Send stalled by flow control that then fails) and on the receive side, for EOF/Unavailable/Internal/Canceled, while the application queues a burst of 0..12 further requests; then Close, or Reset + new stub + Connect + a further exchange. The full product over small parameters is enumerated and larger ones are drawn. Done must fire, every Q must return, the error must be recorded, AwaitConverged must return a *ClientErr (never nil), Close/Reset must return, no goroutine with client frames may remain, and after Reset+Connect the client must be empty, the new stream must carry exactly a fresh client's messages and a further exchange must converge. 0-4 application goroutines may already be inside AwaitConverged when the stream breaks, the burst may be queued by another goroutine while the stream breaks, and a repeated contention scenario (several waiters, bursts of 7-12) looks for lock cycles between queueing calls, waiters and the client's sender/receiver.",
    note="Trusted: the stub's emulation of the gRPC client-stream contract; goroutine census by stack frames; 10 s watchdog (a hang is reported only with the blocked client frames in the dump).",
    design="DESIGN.md §4 C14"),
  "C11": dict(
@@ -115,7 +115,7 @@ CHECKS = {
  "C19": dict(
    technique="property-based testing of the compliance suite itself: rapid-drawn permutations/configurations on a shared conformant server, and a catalogue of single-requirement faulty servers (rewriting proxy over bufconn) with designated tests as oracle",
    level="exploration",
-   text="Conformant half: every test of compliance.TestSuite must pass on a capturing testing.TB when the whole suite runs over real gRPC (bufconn) on one long-lived reference server in a generated permutation with a generated starting election id and VRF name. Faulty half: 29 single-requirement faults (response/request-rewriting proxy around the reference server, or the opposite server option); each (fault, designated test) pair must fail on a fresh faulty server and pass on a fresh unwrapped server in the same run; designation follows the registry's Requires* flags and test names only.",
+   text="Conformant half: every test of compliance.TestSuite must pass on a capturing testing.TB when the whole suite runs over real gRPC (bufconn) on one long-lived reference server in a generated permutation with a generated starting election id and VRF name. Faulty half: 29 single-requirement faults (response/request-rewriting proxy around the reference server, or the opposite server option); each (fault, designated test) pair must fail on a fresh faulty server and pass on a fresh unwrapped server in the same run; designation follows the registry's Requires* flags and test names only. The catalogue includes Get RPCs that end with a non-OK status after the complete data or after the first response.",
    note="Trusted: the catalogue and designation table in harness/c19/catalogue.go (completeness of the catalogue bounds what the faulty half can see); BusyLoopDelay 1 ms; pairs that wait for the suite's one-minute timeout run in the thorough tier only; a test that shuffles its own operations must fail at least once in 12 attempts.",
    design="DESIGN.md §4 C19, Appendix A"),
 }
